@@ -166,11 +166,13 @@ class Hierarchy:
 
 
 class Event:
-    __slots__ = ("kind", "what", "args", "kwargs", "line", "extra", "depth", "func")
+    __slots__ = ("kind", "what", "args", "kwargs", "line", "extra", "depth", "func", "epoch", "callee", "ctx")
 
-    def __init__(self, kind, what, args=(), kwargs=None, line=None, extra=None, depth=0, func=None):
+    def __init__(self, kind, what, args=(), kwargs=None, line=None, extra=None, depth=0, func=None, epoch=0,
+                 callee=None, ctx=()):
         self.kind, self.what, self.args, self.kwargs = kind, what, tuple(args), dict(kwargs or {})
         self.line, self.extra, self.depth, self.func = line, extra, depth, func
+        self.epoch, self.callee, self.ctx = epoch, callee, tuple(ctx)
 
     def __repr__(self):
         if self.kind in ("call", "await"):
